@@ -49,10 +49,16 @@ var (
 )
 
 // Blind reports that a rule (or a selector) found fewer instances than the unchanged tree has.
-func Blind(format string, a ...interface{}) {
+// Under -strict this is fatal for the tree itself, never for a variant of it (a control overlay):
+// controls are judged by the violations they raise, and a variant that removes an anchor has
+// simply nothing to check there.
+func (m *Model) Blind(format string, a ...interface{}) {
 	msg := fmt.Sprintf(format, a...)
-	if Strict {
+	if Strict && len(m.Cfg.Overlay) == 0 {
 		panic(AnalysisError{msg})
+	}
+	if len(m.Cfg.Overlay) != 0 {
+		return
 	}
 	blindMu.Lock()
 	defer blindMu.Unlock()
@@ -82,21 +88,22 @@ type Config struct {
 type FieldIdx struct{ Mant, Exp, Prec, Mode, Acc, Form, Neg int }
 
 type Model struct {
-	Cfg      Config
-	Fset     *token.FileSet
-	Dec, Ctx *packages.Package
-	Prog     *ssa.Program
-	SDec     *ssa.Package
-	SCtx     *ssa.Package
-	Funcs    []*ssa.Function // source functions with bodies (incl. closures), non-test, sorted
-	Externs  []*ssa.Function // body-less declarations (assembly)
-	Decimal  *types.Named
-	DecT     *types.Named
-	WordT    *types.Named
-	Context  *types.Named
-	F        FieldIdx
-	FieldN   []string
-	AsmFiles []string
+	accessors map[*ssa.Function]int
+	Cfg       Config
+	Fset      *token.FileSet
+	Dec, Ctx  *packages.Package
+	Prog      *ssa.Program
+	SDec      *ssa.Package
+	SCtx      *ssa.Package
+	Funcs     []*ssa.Function // source functions with bodies (incl. closures), non-test, sorted
+	Externs   []*ssa.Function // body-less declarations (assembly)
+	Decimal   *types.Named
+	DecT      *types.Named
+	WordT     *types.Named
+	Context   *types.Named
+	F         FieldIdx
+	FieldN    []string
+	AsmFiles  []string
 
 	retSelf   map[*ssa.Function]bool
 	ctorMemo  map[*ssa.Function]bool
@@ -328,6 +335,17 @@ func (m *Model) Lookup(name string) *ssa.Function {
 	if fn := m.TryLookup(name); fn != nil {
 		return fn
 	}
+	// a method written as a plain function with the receiver as first parameter (or the reverse)
+	// is the same anchor: (*Decimal).usub <-> usub(z, x, y), dec.addAt <-> decAddAt(z, …)
+	if strings.HasPrefix(name, "(*Decimal).") {
+		if fn := m.TryLookup(strings.TrimPrefix(name, "(*Decimal).")); fn != nil && fn.Signature.Recv() == nil && len(fn.Params) > 0 && m.IsDecPtr(fn.Params[0].Type()) {
+			return fn
+		}
+	} else if !strings.Contains(name, ".") {
+		if fn := m.TryLookup("(*Decimal)." + name); fn != nil {
+			return fn
+		}
+	}
 	Fatal("anchor function %q not found in configuration %s", name, m.Cfg.Name)
 	return nil
 }
@@ -434,14 +452,82 @@ func (m *Model) DecField(addr ssa.Value) (*ssa.FieldAddr, bool) {
 	return fa, true
 }
 
-// LoadOfDecField: v is *(&x.f).
+// LoadOfDecField: v is *(&x.f), or a call x.Get() of a trivial accessor method whose whole body
+// is `return x.f` (possibly converted): Prec, Mode, Acc, Signbit and whatever else is written
+// that way. For an accessor call the result is a synthetic FieldAddr that carries only X (the
+// receiver argument) and Field.
 func (m *Model) LoadOfDecField(v ssa.Value) (*ssa.FieldAddr, bool) {
-	u, ok := v.(*ssa.UnOp)
-	if !ok || u.Op != token.MUL {
+	if u, ok := v.(*ssa.UnOp); ok && u.Op == token.MUL {
+		return m.DecField(u.X)
+	}
+	c, ok := v.(*ssa.Call)
+	if !ok {
 		return nil, false
 	}
-	return m.DecField(u.X)
+	cal := c.Call.StaticCallee()
+	if cal == nil || len(c.Call.Args) != 1 {
+		return nil, false
+	}
+	f, ok := m.accessorField(cal)
+	if !ok {
+		return nil, false
+	}
+	return &ssa.FieldAddr{X: c.Call.Args[0], Field: f}, true
 }
+
+// accessorField: fn is a method on *Decimal with a single block that returns the load of one
+// field of its receiver, possibly through conversions (memoised).
+func (m *Model) accessorField(fn *ssa.Function) (int, bool) {
+	accMu.Lock()
+	defer accMu.Unlock()
+	if m.accessors == nil {
+		m.accessors = map[*ssa.Function]int{}
+	}
+	if f, ok := m.accessors[fn]; ok {
+		return f, f >= 0
+	}
+	m.accessors[fn] = -1
+	if !m.IsDecMethod(fn) || len(fn.Params) != 1 || len(fn.Blocks) != 1 {
+		return 0, false
+	}
+	b := fn.Blocks[0]
+	ret, ok := b.Instrs[len(b.Instrs)-1].(*ssa.Return)
+	if !ok || len(ret.Results) != 1 {
+		return 0, false
+	}
+	v := ret.Results[0]
+	for i := 0; i < 3; i++ {
+		switch x := v.(type) {
+		case *ssa.Convert:
+			v = x.X
+			continue
+		case *ssa.ChangeType:
+			v = x.X
+			continue
+		}
+		break
+	}
+	u, ok := v.(*ssa.UnOp)
+	if !ok || u.Op != token.MUL {
+		return 0, false
+	}
+	fa, ok := m.DecField(u.X)
+	if !ok || fa.X != ssa.Value(fn.Params[0]) {
+		return 0, false
+	}
+	// nothing else of substance in the body
+	for _, in := range b.Instrs {
+		switch in.(type) {
+		case *ssa.FieldAddr, *ssa.UnOp, *ssa.Convert, *ssa.ChangeType, *ssa.Return, *ssa.DebugRef:
+		default:
+			return 0, false
+		}
+	}
+	m.accessors[fn] = fa.Field
+	return fa.Field, true
+}
+
+var accMu sync.Mutex
 
 // ---------------------------------------------------------------- constants
 
